@@ -125,7 +125,7 @@ func TestPropGreedy(t *testing.T) {
 			return
 		}
 		f := flows[dir]
-		B := f.burst
+		B := f.bkt
 		// trains
 		var blocks []block
 		nb := rapid.IntRange(1, 3).Draw(rt, "nblocks")
@@ -233,12 +233,12 @@ func TestPropGreedy(t *testing.T) {
 		ctx := func() string {
 			return fmt.Sprintf("%s of %s, contract rate=%d burst=%d, t0=%d, trains (size,gap ns,count) %v, first arrivals %v", dirName(dir), sub, f.rate, f.burst, t0, blocks, sampleEvents(ev, 12))
 		}
-		abandon, c2 := verdictCheck(rt, ev, f.rate, f.burst, sigEnforcedOver+"/"+dirName(dir), sigEnforcedRate0+"/"+dirName(dir), ctx)
+		abandon, c2 := verdictCheck2(rt, ev, f.rate, f.burst, f.bkt, sigEnforcedOver+"/"+dirName(dir), sigEnforcedRate0+"/"+dirName(dir), ctx)
 		if abandon {
 			return
 		}
 		cls = append(cls, c2...)
-		cls = append(cls, kind)
+		cls = append(cls, kind, "layer:greedy")
 		if sub.steered[dir] {
 			cls = append(cls, "steered-key")
 		} else {
@@ -246,7 +246,7 @@ func TestPropGreedy(t *testing.T) {
 		}
 		nt := nonTrivial(ev)
 		if nt {
-			cls = append(cls, "nt:drop-then-admit")
+			cls = append(cls, "nt:drop-then-admit", "nt:greedy")
 		}
 		a, d := countAdm(ev)
 		vstat.Class("greedy-arrivals", int64(len(ev)))
